@@ -129,3 +129,17 @@ package client
 //@   assert [C14] only-two-days: forall D int :: winStart(s, D) <= ns(t) && ns(t) < winEnd(s, D) ==> D == d0(t) || D == d0(t)-1 at "timeRanges.in(t)"
 //@   ensures [C14] candidates: err == nil ==> (res0 <==> (inWindow(s, t, d0(t)) || inWindow(s, t, d0(t) - 1)))
 //@   ensures [C14] window: err == nil ==> (res0 <==> (exists D int :: inWindow(s, t, D)))
+
+// ---- msg.go: subject parsers (C12: never crash on any subject / payload) ------------------
+//@ func DecodeNodePointsMsg
+//@   props C12
+//@   requires msg != nil
+//@ func DecodeEdgePointsMsg
+//@   props C12
+//@   requires msg != nil
+//@ func DecodeUpNodePointsMsg
+//@   props C12
+//@   requires msg != nil
+//@ func DecodeUpEdgePointsMsg
+//@   props C12
+//@   requires msg != nil
